@@ -61,7 +61,7 @@ fn probes(ctx: &fend_core::Context, names: &[String], probes: &[String]) -> Sx {
     sx::l(names.iter().map(|n| {
         sx::l(probes.iter().map(|p| {
             let mut c = ctx.clone();
-            eval1(&p.replace('$', n), &mut c, 2000)
+            eval1(&p.replace('$', n), &mut c, 300)
         }).collect())
     }).collect())
 }
